@@ -372,9 +372,10 @@ struct Explorer {
                 if (sc.stateful) {
                     // explicit-state mode: a state seen before has had all its alternatives scheduled; everything
                     // later on this execution is reachable from it, so stop branching here
-                    uint64_t sig = p.nopt;
-                    for (int k = 0; k < p.nopt && k < VS_MAXOPT; ++k) sig = sig * 31 + p.tids[k] + 1;
-                    sig = sig * 7 + p.kind;
+                    // signature of the option SET (the order and the point kind depend on the scheduler's fairness
+                    // counter, which is deliberately not part of the abstract state)
+                    uint64_t sig = p.kind == VS_K_NOTIFY ? (1ull << 62) : 0;
+                    for (int k = 0; k < p.nopt && k < VS_MAXOPT; ++k) sig |= 1ull << (p.tids[k] & 63);
                     auto it = visited.find(p.state);
                     if (it != visited.end()) {
                         if (it->second != sig) abstraction_conflicts++;
